@@ -62,6 +62,20 @@ def SameCursor : List (List Char) → List (List Char) → Prop
   | a :: l, b :: m => (∀ p, Text.advs a p = Text.advs b p) ∧ SameCursor l m
   | _, _ => False
 
+/-- every line feed written as carriage return + line feed (a file saved with CRLF line ends);
+applied to the separators of a layout only, i.e. outside the tokens -/
+def crlf : List Char → List Char
+  | [] => []
+  | c :: cs => if c = '\n' then '\r' :: '\n' :: crlf cs else c :: crlf cs
+
+/-- the located tokens of a token sequence written with a layout (`Text.interleave`), the cursor
+starting at `p`: a token's location is the cursor after its last character -/
+def locate : List Token → List (List Char) → Lex.Pos → List LToken
+  | [], _, _ => []
+  | t :: ts, l, p =>
+    ⟨t, some (Text.advs (Text.renderTok t) (Text.advs (l.headD []) p))⟩ ::
+      locate ts l.tail (Text.advs (Text.renderTok t) (Text.advs (l.headD []) p))
+
 /-! ## C18: the REPL -/
 
 /-- what the REPL writes after a successful submission: the value of the last form in `display`
